@@ -53,6 +53,7 @@ type Pipe struct {
 	Out        [][]byte // every record the library passed to Send (successfully or not), in order
 	Overlaps   []string
 	FaultsDone []string
+	BlockSend  bool  // back-pressure: while set, the library's Send does not complete (set and cleared by the harness)
 	FailRecv   error // set by an environment thread: the pending / next library Recv fails with it (once)
 	FailSend   error // the next library Send fails with it (once)
 }
@@ -91,6 +92,9 @@ func (e *LibEnd) Send(b []byte) error {
 	}
 	p.sendActive++
 	vs.Yield("pipe send (" + p.opts.Name + ")")
+	if p.BlockSend {
+		vs.Await(func() bool { return !p.BlockSend }, "pipe send blocked by back-pressure ("+p.opts.Name+")")
+	}
 	if p.opts.Monitor {
 		vs.Yield("pipe send.2 (" + p.opts.Name + ")")
 	}
